@@ -286,6 +286,9 @@ async fn run(scn: Value) -> Value {
             Some(h) => Backend::start_at(&name, log.clone(), md5, h).await,
             None => Backend::start(&name, log.clone(), md5).await,
         };
+        if let Some(k) = b.get("keys").and_then(|x| x.as_str()) {
+            *be.key_scheme.lock() = k.to_string(); // C10: unusual BackendKeyData (neg | zero | min | max)
+        }
         if let Some(m) = b.get("mode").and_then(|x| x.as_str()) {
             be.set_mode(m);
         }
